@@ -170,6 +170,25 @@ Proof.
   intros H Hr He E U. pose proof (reach_q _ _ H) as EQ. apply reach_inv2 in H. destruct H as (_ & J & _).
   eapply (j_unfired _ J); eauto. rewrite EQ; auto.
 Qed.
+
+(* ---------------------------------------------------------------- value returned by ExecuteTimeouts *)
+Lemma t_next_nonneg s cbs s' now' : do_exec s cbs = Some (s', now') ->
+  (0 <= next_in_z s' now')%Z /\ Z.of_N (next_in s' now') = next_in_z s' now' /\
+  (q s' <> [] -> (0 < next_in_z s' now')%Z).
+Proof.
+  clear alloc_ok pickc_ok. intros H. destruct (exec_post s cbs s' now' H) as [E P]. subst now'.
+  unfold next_in_z, next_in. destruct (peek s') as [e|] eqn:PK.
+  - apply peek_some in PK. destruct PK as [Hin _]. specialize (P e Hin). repeat split; try lia.
+  - apply peek_none in PK. repeat split; try lia. congruence.
+Qed.
+Lemma t_poll_sleep_bounded ep s now b e : peek s = Some e -> now < enext e ->
+  now + poll_sleep ep s now b <= enext e.
+Proof.
+  clear alloc_ok pickc_ok. intros PK L. unfold poll_sleep. rewrite PK.
+  assert (X : N.min (enext e - now) b <= enext e - now) by apply N.le_min_l.
+  destruct ep; [|lia].
+  pose proof (N.div_mod (N.min (enext e - now) b) 1000). lia.
+Qed.
 End Timers.
 
 (* ---------------------------------------------------------------- the hypotheses are satisfiable *)
